@@ -69,6 +69,9 @@ def session_event(tid: str, cfg: Dict[str, Any], res: Dict[str, Any], kind: str,
     wire_pos = {c['seat']: 0 for c in clients}
     wire = {c['seat']: c['wire'] for c in clients}
     decs = [{'calls': [], 'cards': []} for _ in boards]
+    if cfg.get('offers'):
+        for d_ in decs:
+            d_['offers'] = []
     paired_ok = True
     for d in res['decisions']:
         by = d['by']
@@ -88,6 +91,9 @@ def session_event(tid: str, cfg: Dict[str, Any], res: Dict[str, Any], kind: str,
         else:
             decs[b]['cards'].append({'seat': d['seat'], 'card': d['value'],
                                      'sent': wentry['sent']})
+            if cfg.get('offers'):
+                decs[b]['offers'].append({'offered': d.get('offered', []),
+                                                          'held': d.get('held', [])})
     by_seat = {c['seat']: c for c in clients}
     s2c = [[t for (_, t) in by_seat[s]['s2c']] if s in by_seat else [] for s in range(4)]
     c2s = [[t for (_, t) in by_seat[s]['c2s']] if s in by_seat else [] for s in range(4)]
@@ -553,11 +559,13 @@ def owners(clause: str, kind: str) -> set:
             own |= {'C13'} if kind == 'abort' else {'C08'}
             if c.startswith('log-present') or c.startswith('log-json'):
                 own |= {'C09'} if kind != 'abort' else set()
+        if c.startswith('offered-'):
+            own |= {'C06'}
         if c.startswith('abort-'):
             own |= {'C13'}
         if c.startswith('admission-'):
             own |= {'C20'}
-    return own or {'C08', 'C09', 'C10', 'C11', 'C13', 'C20'}
+    return own or {'C06', 'C08', 'C09', 'C10', 'C11', 'C13', 'C20'}
 
 
 def run(pid: str, tier: str) -> int:
@@ -582,8 +590,18 @@ def run_into(chk: Check, pid: str, tier: str) -> None:
         'client end of the connection',
         'TLC, SANY, Json community module']
     from . import tablemodel
-    tablemodel.design(chk, pid, tier)
-    if pid == 'C09':
+    if pid != 'C06':
+        tablemodel.design(chk, pid, tier)
+    if pid == 'C06':
+        # the set the bundled client's replica offers to its playing system, at
+        # every decision of sessions with passed-out boards in every position
+        jobs = normal_jobs(r, 30 if quick else 1500, 'o', max_boards=4)
+        for (_, cfg, _, _) in jobs:
+            cfg['offers'] = True
+            cfg['vary'] = False
+            if 'second' in cfg:
+                cfg['second']['offers'] = True
+    elif pid == 'C09':
         n = 240 if quick else 12000
         jobs = schedule_jobs(r, n, 'k') + normal_jobs(r, 40 if quick else 800, 'n') + \
             replay_jobs(chk, 12 if quick else 400, 't')
